@@ -1434,7 +1434,15 @@ fn verify_upgrade(
     }
     let extra = &upgrade.additional_nodes;
 
-    iter.seek(changeset.roots[changeset.roots.len() - 1].index);
+    let last_root_index = match changeset.roots.last() {
+        Some(root) => root.index,
+        None => {
+            return Err(HypercoreError::InvalidOperation {
+                context: "Upgrade proof does not lead to any roots".to_string(),
+            });
+        }
+    };
+    iter.seek(last_root_index);
     i = 0;
 
     while i < extra.len() && extra[i].index == iter.sibling() {
